@@ -178,9 +178,10 @@ pub fn v3_poll(bytes: &[u8], sched: Vec<Sched>, term: Term) -> String {
     use mqtt_proto::v3::{PollPacket, PollPacketState};
     let mut state = PollPacketState::default();
     let mut rd = ScriptReader::new(bytes.to_vec(), sched, term);
-    let waker = std::task::Waker::noop();
-    let mut cx = std::task::Context::from_waker(waker);
+    let (flag, waker) = crate::sio::task_waker();
+    let mut cx = std::task::Context::from_waker(&waker);
     let mut pend = 0usize;
+    let mut lost = false;
     let res = 'outer: loop {
         // (re-)create the future from the caller-held state
         let mut fut = PollPacket::new(&mut state, &mut rd);
@@ -192,11 +193,17 @@ pub fn v3_poll(bytes: &[u8], sched: Vec<Sched>, term: Term) -> String {
                     if pend > 1_000_000 {
                         panic!("poll spins");
                     }
+                    if !crate::sio::woken(&flag) {
+                        lost = true;
+                    }
                     drop(fut);
                     if rd.drop_requested {
                         rd.drop_requested = false;
                         // the caller-held state is plain data (`Clone`): a caller may continue from a copy of it
-                        state = state.clone();
+                        // (not for declared bodies of many MB: the copy would dominate the run)
+                        if crate::fam::state_is_small(&state) {
+                            state = state.clone();
+                        }
                     }
                     // whether or not a drop was requested, a fresh future over the same state must
                     // behave identically; for plain Pending we also re-create (borrowck), which is
@@ -207,6 +214,7 @@ pub fn v3_poll(bytes: &[u8], sched: Vec<Sched>, term: Term) -> String {
         }
     };
     let r = match res {
+        _ if lost => format!("err {}", crate::sio::LOST_WAKEUP),
         Ok((total, body, p)) => {
             let body: Vec<u8> = body.into_iter().map(|b| unsafe { b.assume_init() }).collect();
             format!("ok total={} body={} {}", total, hex_or_dash(&body), v3text::show(&p))
@@ -330,9 +338,10 @@ pub fn v5_poll(bytes: &[u8], sched: Vec<Sched>, term: Term) -> String {
     use mqtt_proto::v5::{PollPacket, PollPacketState};
     let mut state = PollPacketState::default();
     let mut rd = ScriptReader::new(bytes.to_vec(), sched, term);
-    let waker = std::task::Waker::noop();
-    let mut cx = std::task::Context::from_waker(waker);
+    let (flag, waker) = crate::sio::task_waker();
+    let mut cx = std::task::Context::from_waker(&waker);
     let mut pend = 0usize;
+    let mut lost = false;
     let res = 'outer: loop {
         let mut fut = PollPacket::new(&mut state, &mut rd);
         loop {
@@ -343,13 +352,23 @@ pub fn v5_poll(bytes: &[u8], sched: Vec<Sched>, term: Term) -> String {
                     if pend > 1_000_000 {
                         panic!("poll spins");
                     }
+                    if !crate::sio::woken(&flag) {
+                        lost = true;
+                    }
                     drop(fut);
+                    if rd.drop_requested {
+                        rd.drop_requested = false;
+                        if crate::fam::state_is_small(&state) {
+                            state = state.clone();
+                        }
+                    }
                     continue 'outer;
                 }
             }
         }
     };
     let r = match res {
+        _ if lost => format!("err {}", crate::sio::LOST_WAKEUP),
         Ok((total, body, p)) => {
             let body: Vec<u8> = body.into_iter().map(|b| unsafe { b.assume_init() }).collect();
             format!("ok total={} body={} {}", total, hex_or_dash(&body), v5text::show(&p))
